@@ -655,3 +655,160 @@ Theorem C03_histc_example_run :
 Proof. exact (conj exc_preA (conj exc_runA (conj (proj1 exc_stA_shape)
          (conj (proj1 (proj2 exc_stA_shape)) exc_wfA)))). Qed.
 Print Assumptions C03_histc_example_run.
+
+(** ** ALL histories, ZBDD kind (HISTz): the ZBDD manager state machine of Mgr/HistoryZ.v - 17 kinds of
+    calls: the Boolean interface (const, var / not_var, not, the 8 connectives, ite, restrict), the
+    set-family interface (empty, base, singleton, subset0 / subset1 / change, union / intsec / diff,
+    make_node), clone, drop, gc (roots: the handles AND the manager's tautology chain), add_vars (chain
+    rebuilt), set_var_order (chain dropped and rebuilt) - from the empty ZBDD manager, for every operand
+    order [gt], every cache that only serves what was added ([zlossy]) and every reaction [cav] of the
+    cache to add_vars that drops at least the Restrict entries ([cav_ok]; see notes/HISTz.md for why). *)
+From Coq Require Import Bool List NArith PArith FMapPositive.
+From OxiVerif Require Import DD.Sem DD.Build DD.Apply DD.ConfigApply DD.FamSpec DD.ZbddOps DD.ZbddOpsProofs DD.ZbddBool
+  DD.ZbddBoolProofs DD.ZbddEvalProofs Mgr.LevelSwapZ Mgr.LevelSwapZProofs Mgr.HistoryExamples
+  Mgr.HistoryZ Mgr.HistoryZBase Mgr.HistoryZFam Mgr.HistoryZProofs Mgr.HistoryZThms Mgr.HistoryZSpec Mgr.HistoryZTie
+  Mgr.HistoryZExamples.
+
+(* what "reachable" means: the state after a history of well-formed requests from the empty ZBDD manager *)
+Theorem C03_histz_reach_unfold :
+  forall (gt : ref -> ref -> bool) (C : Type) (cget : C -> N -> list ref -> list nat -> option ref)
+  (cadd : C -> N -> list ref -> list nat -> ref -> C) (cempty : C) (cav : C -> C) (n : nat) (st : hstate_z C),
+  hreach_z gt C cget cadd cempty cav n st <->
+  exists ops, zhops_pre gt C cget cadd cempty cav (hinit_z C cempty n) ops /\
+  hrun_z gt C cget cadd cempty cav (hinit_z C cempty n) ops = Some st.
+Proof. exact (fun gt C cget cadd cempty cav n st => iff_refl _). Qed.
+Print Assumptions C03_histz_reach_unfold.
+
+(* the hypothesis on the cache across add_vars: nothing new is served, and no Restrict entry *)
+Theorem C03_histz_cav_ok_unfold :
+  forall (C : Type) (cget : C -> N -> list ref -> list nat -> option ref) (cav : C -> C),
+  cav_ok C cget cav <->
+  (forall c k a m r, cget (cav c) k a m = Some r -> cget c k a m = Some r /\ k <> zcode_restrict).
+Proof. exact (fun C cget cav => iff_refl _). Qed.
+Print Assumptions C03_histz_cav_ok_unfold.
+
+(* the invariant that holds whenever no operation is in progress: well-formed ZBDD table, complete tautology chain, valid cache *)
+Theorem C03_histz_inv_unfold :
+  forall (C : Type) (cget : C -> N -> list ref -> list nat -> option ref) (st : hstate_z C),
+  HInvZ C cget st <-> ZbddOK (hz_s C st) /\ ZChainOK (hz_s C st) /\ ZCacheOKB C cget (hz_s C st) (hz_c C st).
+Proof. exact hinvz_unfold. Qed.
+Print Assumptions C03_histz_inv_unfold.
+
+Theorem C03_histz_init_inv :
+  forall (C : Type) (cget : C -> N -> list ref -> list nat -> option ref) (cempty : C),
+  (forall (k : N) (a : list ref) (m : list nat), cget cempty k a m = None) ->
+  forall n : nat, HInvZ C cget (hinit_z C cempty n).
+Proof. exact hinit_z_inv. Qed.
+Print Assumptions C03_histz_init_inv.
+
+(* one call of any kind: completes, re-establishes the invariant, frame, result *)
+Theorem C03_histz_step :
+  forall (gt : ref -> ref -> bool) (C : Type) (cget : C -> N -> list ref -> list nat -> option ref)
+  (cadd : C -> N -> list ref -> list nat -> ref -> C),
+  zlossy C cget cadd ->
+  forall cempty : C,
+  (forall (k : N) (a : list ref) (m : list nat), cget cempty k a m = None) ->
+  forall cav : C -> C,
+  cav_ok C cget cav ->
+  forall (st : hstate_z C) (o : zhop),
+  HInvZ C cget st ->
+  zhop_pre C st o ->
+  exists st' : hstate_z C,
+  hstep_z gt C cget cadd cempty cav st o = Some st' /\ HInvZ C cget st' /\ hframe_z C st o st' /\ hpost_z C st o st'.
+Proof. exact hstep_z_ok. Qed.
+Print Assumptions C03_histz_step.
+
+(* whole histories *)
+Theorem C03_histz_run_ok :
+  forall (gt : ref -> ref -> bool) (C : Type) (cget : C -> N -> list ref -> list nat -> option ref)
+  (cadd : C -> N -> list ref -> list nat -> ref -> C),
+  zlossy C cget cadd ->
+  forall cempty : C,
+  (forall (k : N) (a : list ref) (m : list nat), cget cempty k a m = None) ->
+  forall cav : C -> C,
+  cav_ok C cget cav ->
+  forall (ops : list zhop) (st : hstate_z C),
+  HInvZ C cget st ->
+  zhops_pre gt C cget cadd cempty cav st ops ->
+  exists st' : hstate_z C, hrun_z gt C cget cadd cempty cav st ops = Some st' /\ HInvZ C cget st'.
+Proof. exact hrun_z_ok. Qed.
+Print Assumptions C03_histz_run_ok.
+
+(* from any reachable state no well-formed request gets stuck, and the state reached is reachable *)
+Theorem C03_histz_never_stuck :
+  forall (gt : ref -> ref -> bool) (C : Type) (cget : C -> N -> list ref -> list nat -> option ref)
+  (cadd : C -> N -> list ref -> list nat -> ref -> C),
+  zlossy C cget cadd ->
+  forall cempty : C,
+  (forall (k : N) (a : list ref) (m : list nat), cget cempty k a m = None) ->
+  forall cav : C -> C,
+  cav_ok C cget cav ->
+  forall (n : nat) (st : hstate_z C) (o : zhop),
+  hreach_z gt C cget cadd cempty cav n st ->
+  zhop_pre C st o ->
+  exists st' : hstate_z C,
+  hstep_z gt C cget cadd cempty cav st o = Some st' /\
+  hreach_z gt C cget cadd cempty cav n st' /\ hframe_z C st o st' /\ hpost_z C st o st'.
+Proof. exact histz_progress. Qed.
+Print Assumptions C03_histz_never_stuck.
+
+(* the property: after ANY history the ZBDD table passes the structural checkers run on real snapshots, and the manager's tautology chain is complete *)
+Theorem C03_histz_wf :
+  forall (gt : ref -> ref -> bool) (C : Type) (cget : C -> N -> list ref -> list nat -> option ref)
+  (cadd : C -> N -> list ref -> list nat -> ref -> C),
+  zlossy C cget cadd ->
+  forall cempty : C,
+  (forall (k : N) (a : list ref) (m : list nat), cget cempty k a m = None) ->
+  forall cav : C -> C,
+  cav_ok C cget cav ->
+  forall (n : nat) (st : hstate_z C),
+  hreach_z gt C cget cadd cempty cav n st ->
+  wf_b (hz_s C st) = true /\ zbdd_ok_b (hz_s C st) = true /\ zchain_ok_b (hz_s C st) = true.
+Proof. exact histz_wf. Qed.
+Print Assumptions C03_histz_wf.
+
+(* ... so that the model of pre_reorder_mut finds (and drops) the real chain in every such state *)
+Theorem C03_histz_chain_found :
+  forall s : snap,
+  ZbddOK s -> ZChainOK s -> exists ids : list positive, LevelSwapZ.zchain_ids s = Some ids /\ length ids = nlevels s.
+Proof. exact zchain_ids_found. Qed.
+Print Assumptions C03_histz_chain_found.
+
+(* the executable request checker is sound for the precondition *)
+Theorem C03_histz_pre_checker :
+  forall (C : Type) (cget : C -> N -> list ref -> list nat -> option ref) (st : hstate_z C) (o : zhop),
+  HInvZ C cget st -> zhop_pre_b C st o = true -> zhop_pre C st o.
+Proof. exact zhop_pre_b_sound. Qed.
+Print Assumptions C03_histz_pre_checker.
+
+Theorem C03_histz_run_checked :
+  forall (gt : ref -> ref -> bool) (C : Type) (cget : C -> N -> list ref -> list nat -> option ref)
+  (cadd : C -> N -> list ref -> list nat -> ref -> C),
+  zlossy C cget cadd ->
+  forall cempty : C,
+  (forall (k : N) (a : list ref) (m : list nat), cget cempty k a m = None) ->
+  forall cav : C -> C,
+  cav_ok C cget cav ->
+  forall (n : nat) (ops : list zhop),
+  zhops_pre_b gt C cget cadd cempty cav (hinit_z C cempty n) ops = true ->
+  exists st : hstate_z C,
+  hrun_z gt C cget cadd cempty cav (hinit_z C cempty n) ops = Some st /\ hreach_z gt C cget cadd cempty cav n st.
+Proof. exact hrun_z_checked. Qed.
+Print Assumptions C03_histz_run_checked.
+
+(* non-vacuity: a history of 31 calls through all 17 kinds, accepted by the checker, computed *)
+Theorem C03_histz_example_cover :
+  forallb (fun t => existsb (fun o => Nat.eqb (zhop_tag o) t) exz_ops) (seq 0 17) = true /\ length exz_ops = 31.
+Proof. exact exz_ops_cover. Qed.
+Print Assumptions C03_histz_example_cover.
+
+Theorem C03_histz_example_run :
+  zhops_pre_b zgtA zacache zac_get zac_add nil zcavA (hinit_z zacache nil 3) exz_ops = true /\
+  hrun_z zgtA zacache zac_get zac_add nil zcavA (hinit_z zacache nil 3) exz_ops = Some exz_stA /\
+  PositiveMap.cardinal (s_nodes (hz_s zacache exz_stA)) = 39 /\
+  s_l2v (hz_s zacache exz_stA) = (2 :: 0 :: 1 :: 3 :: nil) /\
+  wf_b (hz_s zacache exz_stA) = true /\ zbdd_ok_b (hz_s zacache exz_stA) = true /\
+  zchain_ok_b (hz_s zacache exz_stA) = true.
+Proof. exact (conj exz_preA (conj exz_runA (conj (proj1 exz_stA_shape) (conj (proj1 (proj2 exz_stA_shape)) exz_wfA)))). Qed.
+Print Assumptions C03_histz_example_run.
+
